@@ -9,7 +9,7 @@ CONSTANTS
   ROs = {FALSE, TRUE}
   ExtNames = {"a"}
   MaxFiles = {2, 1000000}
-  WhatIf = "no_reverify"
+  WhatIf = "hash_before_limit"
 SPECIFICATION Spec
 INVARIANT NoViolation
 CHECK_DEADLOCK FALSE
